@@ -5,6 +5,7 @@ from gym_gridverse.geometry import Position
 
 VF = 'gym_gridverse.envs.visibility_functions:'
 RAYS = 'gym_gridverse.utils.raytracing:compute_rays_fancy'
+RAYS1 = 'gym_gridverse.utils.raytracing:compute_rays'      # the 1-degree fan: not used by the visibility functions
 GPR = {'grid': 'Grid', 'position': 'Position', 'rng': 'Rng'}
 
 
@@ -100,22 +101,25 @@ for fn_name in ('raytracing', 'stochastic_raytracing'):
                    step={'reads-only-lit-cells': rt_reads_lit})(rt_inner)
 
 
-@contract(target=VF + 'raytracing', args=GPR, kwonly=['rng'], stubs={RAYS: ('native-real', 'Rays')},
+@contract(target=VF + 'raytracing', args=GPR, kwonly=['rng'],
+          stubs={RAYS: ('native-real', 'Rays'), RAYS1: ('native-real', 'Rays')},
           props=['C02', 'C03', 'C05', 'C06', 'C07'])
 def v_raytracing(grid, position, rng):
     requires(in_grid(grid, position))   # documented: the origin must lie inside the area
     stub_assume(RAYS, lambda rays, p, area: rays_in_grid(rays, grid, position))
     g0 = old(grid)
     ensures('total', lambda: returned())
+    # both ray-traced views use the same fan of rays (the corner-aimed one) from the agent's cell
     ensures('rays-requested-for-this-view', lambda: not symbolic() or (
-        ghost_calls(RAYS) == 1 and ghost_arg(RAYS, 0, 0) == position))
+        ghost_calls(RAYS) == 1 and ghost_calls(RAYS1) == 0 and ghost_arg(RAYS, 0, 0) == position))
     protocol(grid, position, rng, g0)
     ensures_locals('visible-iff-reached-by-a-lit-ray', lambda visibility, counts_num: forall_cells(
         grid, lambda c: visibility[c.y, c.x] == (counts_num[c.y, c.x] >= 1)))
     ensures('deterministic-no-draw', lambda: draws(rng) == 0)
 
 
-@contract(target=VF + 'stochastic_raytracing', args=GPR, kwonly=['rng'], stubs={RAYS: ('native-real', 'Rays')},
+@contract(target=VF + 'stochastic_raytracing', args=GPR, kwonly=['rng'],
+          stubs={RAYS: ('native-real', 'Rays'), RAYS1: ('native-real', 'Rays')},
           props=['C02', 'C03', 'C05', 'C06'])
 def v_stochastic_raytracing(grid, position, rng):
     from gym_gridverse.envs.visibility_functions import raytracing
@@ -131,4 +135,6 @@ def v_stochastic_raytracing(grid, position, rng):
     ensures_locals('always-shows-cells-every-ray-reaches-lit', lambda visibility, counts_num, counts_den: forall_cells(
         grid, lambda c: implies(counts_den[c.y, c.x] > 0 and counts_num[c.y, c.x] == counts_den[c.y, c.x],
                                 lambda: visibility[c.y, c.x])))
+    ensures('same-rays-as-the-deterministic-view', lambda: not symbolic() or (
+        ghost_calls(RAYS) == 1 and ghost_calls(RAYS1) == 0 and ghost_arg(RAYS, 0, 0) == position))
     ensures('draws-only-from-the-passed-generator', lambda: draws(rng) == 1)
